@@ -30,6 +30,12 @@ def main():
     if hasattr(mod, "teardown"):
         mod.teardown(ctx)
     d = ctx.dump()
+    if len(d["nontrivial"]) > 200000:
+        # large runs: hand the distinct-case hashes over as a file, the driver counts the union with sort -u
+        with open(out + ".nt", "w") as f:
+            f.write("\n".join(d["nontrivial"]) + "\n")
+        d["nontrivial_file"] = out + ".nt"
+        d["nontrivial"] = []
     d["reach"] = reach.report(getattr(mod, "REACH", None))
     d["raised"] = reach.raised()
     with open(out, "w") as f:
